@@ -1,18 +1,66 @@
 """C16 - line rasterisers produce the same exact Bresenham sequence."""
 import itertools
+import math
 import numpy as np
 
 ID = "C16"
 PROPS_FILE = "theories/Props/C16.v"
-EXTRACT = ("theories/Extract/XC16.v", "c16", ["entry_draw", "entry_lines", "entry_check", "entry_check_line"])
+EXTRACT = ("theories/Extract/XC16.v", "c16", ["entry_draw", "entry_lines", "entry_check", "entry_check_line",
+                                             "entry_draw_fast", "entry_lines_fast"])
 PYX = {}
-RULE = ("quick: every end-point pair of a 7x7 grid (thorough: 13x13) through draw_line (write order recorded by a "
-        "__setitem__ spy) and through get_line_pts in batches of 49 (169), plus random batches of 1-30 lines with "
-        "coordinates in [-40,60], plus batches whose end points are handed over as int8/uint8/int16/uint16/int32/int64/float64 arrays or lists with coordinates spanning the whole range of the dtype; non-trivial = the batch contains a line with major delta >= 2 and 0 < minor delta "
-        "< major delta (remainder logic exercised); distinct by hash of the case")
-TRUSTED = ["modelled, not verified: NumPy fancy-index scatter (last write wins), boolean compaction, cumsum"]
+CASE_TIMEOUT = 60
+RULE = ("quick: every end-point pair of a 7x7 grid (thorough: 13x13) through draw_line (write order and value recorded "
+        "by a __setitem__ spy, and on a real array) and through get_line_pts in batches of 49 (169); random batches of "
+        "1-30 lines with coordinates in [-40,60]; batches whose end points are handed over as int8/uint8/int16/uint16/"
+        "int32/int64/intp/float32/float64 arrays, lists, tuples or mixed, contiguous / strided / reversed / read-only, "
+        "with coordinates spanning the whole range of the dtype; batches of 2000+ lines; lines of 17000-66000 points "
+        "(thorough: one of > 100000); empty and all-zero-length batches; every call checks that its inputs are left "
+        "unchanged; all cases run in ONE worker process (state between calls would show). draw_line on real arrays of "
+        "bool/uint8/int32/int64/float32/float64 in C / Fortran / strided / transposed / reversed layout over a "
+        "non-zero background with values of several types and end points as Python ints, np.int64/np.int32 scalars, "
+        "tuples, lists, arrays. Both directions of a line (reverse relation). Library callers: strel_line (two "
+        "half lines), convex_hull_image (closed outline through the hull points, captured before hole filling), "
+        "polygon_lines_to_mask and convex_hull_transform (every inner get_line_pts call recorded). non-trivial = the "
+        "case contains a line with major delta >= 2 and 0 < minor delta < major delta (remainder logic exercised); "
+        "distinct by hash of the case")
+TRUSTED = ["modelled, not verified: NumPy fancy-index scatter (last write wins), boolean compaction, cumsum",
+           "harness-side (unverified) glue for the library callers: strel_line's angle -> offset arithmetic is repeated "
+           "in Python; the hull points of convex_hull_image are taken from the implementation's own convex_hull"]
 ASSUMPTIONS = ["coordinates are Python/NumPy ints without overflow (|coordinate| < 2^31)"]
 EXHAUSTIVE = {"quick": False, "thorough": False}
+
+DT = {"int8": (-128, 127), "uint8": (0, 255), "int16": (-32768, 32767), "uint16": (0, 65535),
+      "int32": (-2 ** 31, 2 ** 31 - 1), "int64": (-2 ** 40, 2 ** 40), "intp": (-2 ** 40, 2 ** 40),
+      "list": (-300, 300), "tuple": (-300, 300), "mixed": (0, 255),
+      "float64": (-200, 200), "float32": (-200, 200)}
+LAYOUTS = ["C", "strided", "rev", "readonly"]
+ARR_DTYPES = ["bool", "uint8", "int32", "int64", "float32", "float64"]
+ARR_LAYOUTS = ["C", "F", "strided", "T", "rev"]
+PFORMS = ["tuple", "list", "np64", "np32", "arr64", "arr32", "intp"]
+VALUES = [["int", 7], ["int", 1], ["bool", 1], ["float", 2.5], ["np_uint8", 3], ["np_float32", 6.0], ["default", 1]]
+
+
+def _bias(rng, r):
+    u = rng.rand()
+    if u < 0.08:
+        r[2] = r[0]
+    elif u < 0.16:
+        r[3] = r[1]
+    elif u < 0.24:
+        d = abs(int(r[2]) - int(r[0])); r[3] = r[1] + d * (1 if rng.rand() < 0.5 else -1)
+    elif u < 0.28:
+        r[2], r[3] = r[0], r[1]
+
+
+def _blob(rng, h, w):
+    img = np.zeros((h, w), int)
+    for _ in range(int(rng.randint(1, 4))):
+        cy, cx = rng.randint(1, h - 1), rng.randint(1, w - 1)
+        ry, rx = rng.randint(1, max(2, h // 2)), rng.randint(1, max(2, w // 2))
+        yy, xx = np.mgrid[0:h, 0:w]
+        img[((yy - cy) / float(ry)) ** 2 + ((xx - cx) / float(rx)) ** 2 <= 1.0] = 1
+    img[rng.rand(h, w) < 0.03] = 1
+    return img
 
 
 def generate(ctx):
@@ -27,29 +75,26 @@ def generate(ctx):
     for s in range(0, len(pairs), bs):
         cases.append({"fn": "lines", "ls": [[a[0], a[1], b[0], b[1]] for a, b in pairs[s:s + bs]]})
     cases.append({"fn": "lines", "ls": []})
+    for dt in ("list", "int8", "float64", "tuple"):
+        cases.append({"fn": "lines", "ls": [], "dtype": dt})
+    # all-zero-length batches
+    for k in (1, 2, 50):
+        p = rng.randint(-5, 6, size=(k, 2))
+        cases.append({"fn": "lines", "ls": np.hstack([p, p]).tolist()})
     for _ in range(ctx.n(300, 6000)):
         k = int(rng.choice([1, 1, 2, 3, 5, 8, 13, 30]))
         lo, hi = (-40, 60) if rng.rand() < 0.5 else (0, int(rng.choice([2, 5, 20, 60])))
         ls = rng.randint(lo, hi + 1, size=(k, 4))
         # bias: horizontal / vertical / diagonal / zero-length lines
         for r in ls:
-            u = rng.rand()
-            if u < 0.08:
-                r[2] = r[0]
-            elif u < 0.16:
-                r[3] = r[1]
-            elif u < 0.24:
-                d = abs(int(r[2]) - int(r[0])); r[3] = r[1] + d * (1 if rng.rand() < 0.5 else -1)
-            elif u < 0.28:
-                r[2], r[3] = r[0], r[1]
+            _bias(rng, r)
         cases.append({"fn": "lines", "ls": ls.tolist()})
-    # end points handed over in every integer dtype get_line_pts accepts (the function normalises to int;
-    # a narrow dtype used as-is would wrap in the remainder arithmetic): coordinates span the dtype's
+    # end points handed over in every dtype / container / layout get_line_pts accepts (the function normalises
+    # to int; a narrow dtype used as-is would wrap in the remainder arithmetic): coordinates span the dtype's
     # whole range, so 2*|major delta| exceeds the dtype's maximum
-    DT = {"int8": (-128, 127), "uint8": (0, 255), "int16": (-32768, 32767), "uint16": (0, 65535),
-          "int32": (-2 ** 31, 2 ** 31 - 1), "int64": (-2 ** 40, 2 ** 40), "list": (-300, 300), "float64": (-200, 200)}
-    for _ in range(ctx.n(160, 1600)):
-        dt = str(rng.choice(["int8", "int8", "uint8", "uint8", "int16", "uint16", "int32", "int64", "list", "float64"]))
+    for _ in range(ctx.n(240, 2400)):
+        dt = str(rng.choice(["int8", "int8", "uint8", "uint8", "int16", "uint16", "int32", "int64", "intp", "list",
+                             "tuple", "mixed", "float64", "float32"]))
         lo, hi = DT[dt]
         k = int(rng.choice([1, 2, 3, 6]))
         ls = []
@@ -59,8 +104,10 @@ def generate(ctx):
             span = int(rng.choice([0, 1, 5, 60, 130, 255, 300]))
             b = [min(hi, max(lo, a[0] + int(rng.randint(-span, span + 1)))),
                  min(hi, max(lo, a[1] + int(rng.randint(-span, span + 1))))]
+            if dt == "float32":      # integral values a float32 holds exactly
+                a = [max(-2 ** 24, min(2 ** 24, v)) for v in a]; b = [max(-2 ** 24, min(2 ** 24, v)) for v in b]
             ls.append([a[0], a[1], b[0], b[1]])
-        cases.append({"fn": "lines", "ls": ls, "dtype": dt})
+        cases.append({"fn": "lines", "ls": ls, "dtype": dt, "layout": str(rng.choice(LAYOUTS))})
     for _ in range(ctx.n(2, 8)):
         # int16 needs |major delta| > 16383 for 2*delta to leave the dtype
         dt = str(rng.choice(["int16", "uint16"]))
@@ -71,110 +118,540 @@ def generate(ctx):
             a, b = b, a
         if rng.rand() < 0.5:
             a, b = a[::-1], b[::-1]
-        cases.append({"fn": "lines", "ls": [[a[0], a[1], b[0], b[1]]], "dtype": dt})
+        cases.append({"fn": "lines", "ls": [[a[0], a[1], b[0], b[1]]], "dtype": dt, "layout": str(rng.choice(LAYOUTS))})
+    # long lines: more points than an int16 / uint16 counter holds, next to short ones
+    for n_long in ([66000] if ctx.quick() else [66000, 100003, 140000]):
+        a = [int(rng.randint(-50, 50)), int(rng.randint(-50, 50))]
+        b = [a[0] + int(rng.randint(n_long // 3, n_long // 2)), a[1] - n_long]
+        if rng.rand() < 0.5:
+            a, b = a[::-1], b[::-1]
+        short = rng.randint(-9, 10, size=(3, 4)).tolist()
+        cases.append({"fn": "lines", "ls": [short[0], [a[0], a[1], b[0], b[1]], short[1], short[2]], "dtype": "int64",
+                      "layout": "C", "noscalar": 1})
+        cases.append({"fn": "draw", "l": [b[0], b[1], a[0], a[1]], "spyonly": 1})
+    # batches of 2000+ lines of mixed lengths and octants
+    for nb in ([2300] if ctx.quick() else [2049, 3000, 5000, 2300]):
+        ls = rng.randint(-25, 26, size=(nb, 4))
+        for r in ls[: nb // 2]:
+            _bias(rng, r)
+        cases.append({"fn": "lines", "ls": ls.tolist(), "dtype": str(rng.choice(["int64", "int32", "list"])),
+                      "layout": str(rng.choice(LAYOUTS))})
+    # draw_line on real arrays
+    for _ in range(ctx.n(400, 4000)):
+        l = rng.randint(0, int(rng.choice([4, 9, 25])), size=4)
+        _bias(rng, l)
+        l = [abs(int(v)) for v in l]
+        cases.append({"fn": "draw", "l": l,
+                      "arr": {"dtype": str(rng.choice(ARR_DTYPES)), "layout": str(rng.choice(ARR_LAYOUTS)),
+                              "value": VALUES[int(rng.randint(len(VALUES)))], "pform": str(rng.choice(PFORMS)),
+                              "pad": int(rng.randint(0, 3))}})
+    # both directions of a line
+    for _ in range(ctx.n(150, 1500)):
+        l = rng.randint(-12, 13, size=4)
+        if rng.rand() < 0.5:    # force a tie: even major delta D, minor delta with 2*d*k = D (mod 2D) for some k
+            D = 2 * int(rng.randint(1, 9)); d = int(rng.choice([x for x in range(1, D) if (D // math.gcd(D, x)) % 2 == 0] or [D // 2]))
+            l = [int(l[0]), int(l[1]), int(l[0]) + D * int(rng.choice([-1, 1])), int(l[1]) + d * int(rng.choice([-1, 1]))]
+            if rng.rand() < 0.5:
+                l = [l[1], l[0], l[3], l[2]]
+        cases.append({"fn": "rev", "l": [int(v) for v in l]})
+    # library callers
+    for _ in range(ctx.n(120, 1200)):
+        length = float(rng.choice([0, 1, 2, 3, 5, 8, 13, 21, 40])) if rng.rand() < 0.6 else float(np.round(rng.uniform(0, 45), 3))
+        angle = float(rng.choice(range(-360, 721, 15))) if rng.rand() < 0.6 else float(np.round(rng.uniform(-400, 400), 3))
+        cases.append({"fn": "strel", "length": length, "angle": angle})
+    for _ in range(ctx.n(60, 600)):
+        h, w = int(rng.randint(3, 28)), int(rng.randint(3, 28))
+        cases.append({"fn": "hull", "img": _blob(rng, h, w).tolist()})
+    for _ in range(ctx.n(60, 600)):
+        # closed polygons: a random convex-ish ring of vertices
+        h, w = int(rng.randint(8, 40)), int(rng.randint(8, 40))
+        k = int(rng.randint(3, 8))
+        ang = np.sort(rng.uniform(0, 2 * np.pi, k))
+        vi = np.clip(np.round(h / 2.0 + np.sin(ang) * rng.uniform(1, h / 2.0 - 1, k)), 0, h - 1).astype(int)
+        vj = np.clip(np.round(w / 2.0 + np.cos(ang) * rng.uniform(1, w / 2.0 - 1, k)), 0, w - 1).astype(int)
+        lines = [[int(vi[n]), int(vj[n]), int(vi[(n + 1) % k]), int(vj[(n + 1) % k])] for n in range(k)]
+        cases.append({"fn": "inner", "which": "poly", "lines": lines, "shape": [h, w],
+                      "float": int(rng.rand() < 0.3)})
+    for _ in range(ctx.n(12, 120)):
+        h, w = int(rng.randint(4, 16)), int(rng.randint(4, 16))
+        img = (_blob(rng, h, w) * rng.randint(1, 4, size=(h, w))).tolist()
+        cases.append({"fn": "inner", "which": "cht", "img": img})
     for c in cases:
-        ctx.count(c["fn"] + ":" + c.get("dtype", "int"))
+        if c["fn"] == "lines":
+            ctx.count("lines:" + c.get("dtype", "int") + "/" + c.get("layout", "C"))
+        elif c["fn"] == "draw":
+            ctx.count("draw:" + (c["arr"]["dtype"] + "/" + c["arr"]["layout"] if "arr" in c else "grid"))
+        else:
+            ctx.count(c["fn"] + ":" + c.get("which", ""))
     return cases
 
+
+# ---------------------------------------------------------------------------- implementation side
 
 class _Spy:
     def __init__(self):
         self.w = []
+        self.v = []
 
     def __setitem__(self, key, value):
         self.w.append([int(key[0]), int(key[1])])
+        self.v.append(value)
+
+
+def _pform(form, y, x):
+    if form == "tuple":
+        return (int(y), int(x))
+    if form == "list":
+        return [int(y), int(x)]
+    if form == "np64":
+        return (np.int64(y), np.int64(x))
+    if form == "np32":
+        return (np.int32(y), np.int32(x))
+    if form == "arr64":
+        return np.array([y, x], np.int64)
+    if form == "arr32":
+        return np.array([y, x], np.int32)
+    if form == "intp":
+        return np.array([0, y, x], np.intp)[1:]
+    raise ValueError(form)
+
+
+def _value(v):
+    kind, x = v
+    return {"int": int, "bool": bool, "float": float, "np_uint8": np.uint8, "np_float32": np.float32,
+            "default": int}[kind](x)
+
+
+def _mk_array(a, h, w):
+    """(view to draw on, base array, boolean map of the base cells the view covers)"""
+    dt, lay = np.dtype(a["dtype"]), a["layout"]
+    yy, xx = np.mgrid[0:h, 0:w]
+    bg = ((yy * 3 + xx) % 5 + 10).astype(dt)           # non-zero background, disjoint from every value used
+    if dt.kind == "b":
+        bg = np.zeros((h, w), bool)                    # every value used is truthy
+    if lay == "C":
+        base = np.array(bg, order="C"); view = base
+    elif lay == "F":
+        base = np.array(bg, order="F"); view = base
+    elif lay == "T":
+        base = np.array(bg.T, order="C"); view = base.T
+    elif lay == "rev":
+        base = np.array(bg[::-1, ::-1], order="C"); view = base[::-1, ::-1]
+    elif lay == "strided":
+        base = np.full((2 * h + 1, 3 * w + 2), 99, dt); view = base[1::2, 2::3]; view[...] = bg
+    else:
+        raise ValueError(lay)
+    assert view.shape == (h, w) and np.array_equal(view, bg) and not np.shares_memory(view, bg)
+    return view, base, bg
+
+
+def _draw(M, case):
+    y0, x0, y1, x1 = case["l"]
+    a = case.get("arr")
+    form = a["pform"] if a else "tuple"
+    val = _value(a["value"]) if a else 7
+    spy = _Spy()
+    p0, p1 = _pform(form, y0, x0), _pform(form, y1, x1)
+    keep = [np.array(p0).copy(), np.array(p1).copy()]
+    if a and a["value"][0] == "default":
+        M.draw_line(spy, p0, p1)
+    else:
+        M.draw_line(spy, p0, p1, val)
+    out = {"pts": spy.w,
+           "vals_spy_ok": all(type(v) is type(val) and v == val for v in spy.v) and len(spy.v) == len(spy.w),
+           "args_unchanged": bool(np.array_equal(keep[0], np.array(p0)) and np.array_equal(keep[1], np.array(p1)))}
+    if case.get("spyonly"):
+        return out
+    # and on a real array: which pixels changed, to what
+    ys = [y0, y1]; xs = [x0, x1]
+    pad = a.get("pad", 0) if a else 0
+    oy, ox = min(ys) - pad, min(xs) - pad
+    h, w = max(ys) - oy + 1 + pad, max(xs) - ox + 1 + pad
+    if a is None:
+        a = {"dtype": "int64", "layout": "C", "value": ["int", 7], "pform": "tuple"}
+    view, base, bg = _mk_array(a, h, w)
+    base_before = base.copy()
+    q0, q1 = _pform(form, y0 - oy, x0 - ox), _pform(form, y1 - oy, x1 - ox)
+    if a["value"][0] == "default":
+        r = M.draw_line(view, q0, q1)
+    else:
+        r = M.draw_line(view, q0, q1, val)
+    changed = np.argwhere(view != bg)
+    expect = np.array(val).astype(view.dtype)
+    out["set"] = sorted(map(list, (changed + [oy, ox]).tolist()))
+    out["vals_ok"] = bool(np.all(view[changed[:, 0], changed[:, 1]] == expect)) if len(changed) else True
+    out["base_ok"] = int((base != base_before).sum()) == len(changed)
+    out["returns_none"] = r is None
+    return out
+
+
+def _line_args(ls, dt, layout):
+    cols = [ls[:, k] for k in range(4)]
+    if dt == "list":
+        return [c.tolist() for c in cols]
+    if dt == "tuple":
+        return [tuple(c.tolist()) for c in cols]
+    if dt == "mixed":
+        kinds = ["uint8", "list", "int16", "float64"]
+        return [c.tolist() if k == "list" else c.astype(k) for c, k in zip(cols, kinds)]
+    if dt != "int":
+        cols = [c.astype(dt) for c in cols]
+    res = []
+    for c in cols:
+        if layout == "strided":
+            big = np.zeros((len(c), 3), c.dtype); big[:, 1] = c; c = big[:, 1]
+        elif layout == "rev":
+            c = np.ascontiguousarray(c[::-1])[::-1]
+        elif layout == "readonly":
+            c = c.copy(); c.setflags(write=False)
+        else:
+            c = np.ascontiguousarray(c)
+        res.append(c)
+    return res
+
+
+def _to_lists(r):
+    return {"index": np.asarray(r[0]).tolist(), "count": np.asarray(r[1]).tolist(),
+            "i": np.asarray(r[2]).tolist(), "j": np.asarray(r[3]).tolist(),
+            "kinds": [np.asarray(x).dtype.kind for x in r], "ndims": [np.asarray(x).ndim for x in r]}
+
+
+def _lines(M, case):
+    ls = np.array(case["ls"], int).reshape(-1, 4)
+    args = _line_args(ls, case.get("dtype", "int"), case.get("layout", "C"))
+    keep = [np.array(a).copy() for a in args]
+    r = M.get_line_pts(*args)
+    out = _to_lists(r)
+    out["args_unchanged"] = all(np.array_equal(k, np.array(a)) and (not hasattr(a, "dtype") or a.dtype == k.dtype)
+                                for k, a in zip(keep, args))
+    # a second call with the same objects in the same process must give the same answer
+    if case.get("noscalar"):
+        out["repeatable"] = True
+    else:
+        r2 = M.get_line_pts(*args)
+        out["repeatable"] = all(np.array_equal(np.asarray(x), np.asarray(y)) for x, y in zip(r, r2))
+    if not case.get("noscalar"):
+        scalar = []
+        for y0, x0, y1, x1 in ls.tolist():
+            spy = _Spy()
+            M.draw_line(spy, (y0, x0), (y1, x1), 1)
+            scalar.append(spy.w)
+        out["scalar"] = scalar
+    return out
+
+
+class _Recorder:
+    def __init__(self, f):
+        self.f = f
+        self.calls = []
+
+    def __call__(self, a, b, c, d):
+        args = [np.array(x).copy() for x in (a, b, c, d)]
+        r = self.f(a, b, c, d)
+        integral = all(x.size == 0 or (x.dtype.kind in "iub") or bool(np.all(x == np.round(x))) for x in args)
+        rec = _to_lists(r)
+        rec["ls"] = np.column_stack([x.astype(int) for x in args]).tolist() if len(args[0]) else []
+        rec["integral"] = integral
+        self.calls.append(rec)
+        return r
 
 
 def impl(case):
     from centrosome import cpmorphology as M
-    if case["fn"] == "draw":
+    fn = case["fn"]
+    if fn == "draw":
+        return _draw(M, case)
+    if fn == "lines":
+        return _lines(M, case)
+    if fn == "rev":
         y0, x0, y1, x1 = case["l"]
-        spy = _Spy()
-        M.draw_line(spy, (y0, x0), (y1, x1), 7)
-        # and on a real array: the set of written pixels
-        ys = [y0, y1]; xs = [x0, x1]
-        oy, ox = min(ys), min(xs)
-        arr = np.zeros((max(ys) - oy + 1, max(xs) - ox + 1), int)
-        M.draw_line(arr, (y0 - oy, x0 - ox), (y1 - oy, x1 - ox), 7)
-        on = np.argwhere(arr == 7) + [oy, ox]
-        return {"pts": spy.w, "set": sorted(map(list, on.tolist()))}
-    ls = np.array(case["ls"], int).reshape(-1, 4)
-    dt = case.get("dtype", "int")
-    if dt == "list":
-        args = [ls[:, k].tolist() for k in range(4)]
-    elif dt == "int":
-        args = [ls[:, k] for k in range(4)]
-    else:
-        args = [ls[:, k].astype(dt) for k in range(4)]
-    r = M.get_line_pts(*args)
-    scalar = []
-    for y0, x0, y1, x1 in ls.tolist():
-        spy = _Spy()
-        M.draw_line(spy, (y0, x0), (y1, x1), 1)
-        scalar.append(spy.w)
-    return {"index": np.asarray(r[0]).tolist(), "count": np.asarray(r[1]).tolist(),
-            "i": np.asarray(r[2]).tolist(), "j": np.asarray(r[3]).tolist(), "scalar": scalar}
+        a, b = _Spy(), _Spy()
+        M.draw_line(a, (y0, x0), (y1, x1), 1)
+        M.draw_line(b, (y1, x1), (y0, x0), 1)
+        return {"fwd": a.w, "bwd": b.w}
+    if fn == "strel":
+        s = M.strel_line(case["length"], case["angle"])
+        return {"shape": list(s.shape), "dtype": str(s.dtype), "set": sorted(map(list, np.argwhere(s).tolist()))}
+    if fn == "hull":
+        img = np.array(case["img"], int).astype(bool)
+        pts, counts = M.convex_hull(img.astype(int), np.array([1]))
+        cap = {}
+        orig = M.fill_labeled_holes
 
+        def grab(x, *a, **k):
+            cap["outline"] = np.array(x).copy()
+            return orig(x, *a, **k)
+        M.fill_labeled_holes = grab
+        try:
+            res = M.convex_hull_image(img)
+        finally:
+            M.fill_labeled_holes = orig
+        o = cap["outline"]
+        return {"hull": np.asarray(pts)[: int(counts[0]), 1:].astype(int).tolist(),
+                "outline": sorted(map(list, np.argwhere(o != 0).tolist())), "outline_vals_ok": bool(np.all((o == 0) | (o == 1))),
+                "res": sorted(map(list, np.argwhere(res).tolist())), "shape": list(res.shape)}
+    if fn == "inner":
+        if case["which"] == "poly":
+            ls = np.array(case["lines"], float if case.get("float") else int).reshape(-1, 4)
+            if case.get("float"):
+                ls = ls + 0.25      # polygon_lines_to_mask rounds to the nearest integer itself
+            rec = _Recorder(M.get_line_pts)
+            M.get_line_pts = rec
+            try:
+                res = M.polygon_lines_to_mask(ls[:, 0], ls[:, 1], ls[:, 2], ls[:, 3], tuple(case["shape"]))
+            finally:
+                M.get_line_pts = rec.f
+            return {"calls": rec.calls, "res": sorted(map(list, np.argwhere(res).tolist()))}
+        from centrosome import filter as F
+        rec = _Recorder(F.get_line_pts)
+        F.get_line_pts = rec
+        exc = None
+        try:
+            F.convex_hull_transform(np.array(case["img"], float) / 3.0, levels=4)
+        except Exception as e:      # a failure of the caller itself is not C16's business; the recorded calls are
+            exc = type(e).__name__
+        finally:
+            F.get_line_pts = rec.f
+        return {"calls": rec.calls, "caller_exc": exc}
+    raise ValueError(fn)
+
+
+# ---------------------------------------------------------------------------- model side
 
 def _bad(o):
     return (not isinstance(o, dict)) or "exc" in o or "crash" in o
 
 
+def _strel_geom(case):
+    """strel_line's own float arithmetic, repeated (harness-side glue, see TRUSTED)"""
+    angle = float(case["angle"]) * np.pi / 180.0
+    length = case["length"]
+    x_off = int(np.round(np.finfo(float).eps + np.cos(angle) * length / 2))
+    y_off = -int(np.round(np.finfo(float).eps + np.sin(angle) * length / 2))
+    xc, yc = abs(x_off), abs(y_off)
+    return yc, xc, y_off, x_off
+
+
+def _jobs(case, out):
+    """model evaluations a case needs: list of (entry, arg)"""
+    fn = case["fn"]
+    if fn == "draw":
+        return [("entry_draw_fast", case["l"])]
+    if fn == "lines":
+        return [("entry_lines_fast", case["ls"])]
+    if fn == "rev":
+        y0, x0, y1, x1 = case["l"]
+        return [("entry_draw_fast", [y0, x0, y1, x1]), ("entry_draw_fast", [y1, x1, y0, x0])]
+    if fn == "strel":
+        yc, xc, yo, xo = _strel_geom(case)
+        return [("entry_draw_fast", [yc - yo, xc - xo, yc, xc]), ("entry_draw_fast", [yc + yo, xc + xo, yc, xc])]
+    if _bad(out):
+        return []
+    if fn == "hull":
+        h = out["hull"]
+        return [("entry_draw_fast", [h[n][0], h[n][1], h[(n + 1) % len(h)][0], h[(n + 1) % len(h)][1]]) for n in range(len(h))]
+    if fn == "inner":
+        return [("entry_lines_fast", c["ls"]) for c in out["calls"]]
+    raise ValueError(fn)
+
+
 def model(ctx, cases, outs):
-    di = [k for k, c in enumerate(cases) if c["fn"] == "draw"]
-    li = [k for k, c in enumerate(cases) if c["fn"] == "lines"]
-    res = [None] * len(cases)
-    for k, r in zip(di, ctx.run_model("entry_draw", [cases[k]["l"] for k in di])):
-        res[k] = r
-    for k, r in zip(li, ctx.run_model("entry_lines", [cases[k]["ls"] for k in li])):
-        res[k] = r
+    jobs = [_jobs(c, o) for c, o in zip(cases, outs)]
+    res = [[None] * len(j) for j in jobs]
+    for entry in ("entry_draw_fast", "entry_lines_fast"):
+        where = [(k, n) for k, j in enumerate(jobs) for n, (e, _) in enumerate(j) if e == entry]
+        if not where:
+            continue
+        for (k, n), r in zip(where, ctx.run_model(entry, [jobs[k][n][1] for k, n in where])):
+            res[k][n] = r
     return res
+
+
+def _four(o):
+    return [o["index"], o["count"], o["i"], o["j"]]
 
 
 def compare(case, out, m):
     if _bad(out):
-        return "implementation raised/crashed: %s" % (out,)
-    if case["fn"] == "draw":
-        if m == []:
-            return "model out of fuel"
-        if m[0] != out["pts"]:
-            return "draw_line order differs: impl %s model %s" % (out["pts"][:8], m[0][:8])
+        return "implementation raised/crashed: %s" % (str(out)[:300],)
+    fn = case["fn"]
+    if fn == "draw":
+        if m[0][0] != out["pts"]:
+            return "draw_line order differs: impl %s model %s" % (out["pts"][:8], m[0][0][:8])
+        if "set" in out and sorted(m[0][0]) != out["set"]:
+            return "pixels changed on the real array differ from the model's points: impl %s model %s" % (
+                out["set"][:8], sorted(m[0][0])[:8])
         return None
-    exp = [out["index"], out["count"], out["i"], out["j"]]
-    if m != exp:
-        return "get_line_pts differs from model: impl %s model %s" % (str(exp)[:200], str(m)[:200])
+    if fn == "lines":
+        if m[0] != _four(out):
+            return "get_line_pts differs from model: impl %s model %s" % (str(_four(out))[:200], str(m[0])[:200])
+        return None
+    if fn == "rev":
+        if m[0][0] != out["fwd"] or m[1][0] != out["bwd"]:
+            return "draw_line differs from model in one direction: impl %s / %s" % (out["fwd"][:6], out["bwd"][:6])
+        return None
+    if fn == "strel":
+        yc, xc, yo, xo = _strel_geom(case)
+        exp = sorted(map(list, set(map(tuple, m[0][0])) | set(map(tuple, m[1][0]))))
+        if out["shape"] != [2 * yc + 1, 2 * xc + 1]:
+            return "strel_line shape %s, expected %s" % (out["shape"], [2 * yc + 1, 2 * xc + 1])
+        if out["set"] != exp:
+            return "strel_line pixels differ from the two model half lines: impl %s model %s" % (out["set"][:10], exp[:10])
+        return None
+    if fn == "hull":
+        exp = sorted(map(list, set(tuple(p) for mm in m for p in mm[0])))
+        if out["outline"] != exp:
+            return "convex_hull_image outline differs from the model lines through the hull points %s: impl %s model %s" % (
+                out["hull"], out["outline"][:10], exp[:10])
+        return None
+    if fn == "inner":
+        for n, (c, mm) in enumerate(zip(out["calls"], m)):
+            exp = mm if c["ls"] else [[], [], [], []]
+            if exp != _four(c):
+                return "inner get_line_pts call %d (lines %s) differs from model" % (n, str(c["ls"])[:120])
+        return None
+    return "unknown case kind"
+
+
+# ---------------------------------------------------------------------------- the property on the implementation's output
+
+def _ties_only(l, fwd, bwd_rev):
+    """C16_unique_up_to_ties, evaluated: two correct lines differ only at exact ties and by one"""
+    y0, x0, y1, x1 = l
+    di, dj = abs(y1 - y0), abs(x1 - x0)
+    D, d, ax = (di, dj, 1) if dj <= di else (dj, di, 0)
+    if len(fwd) != len(bwd_rev):
+        return "lengths differ"
+    for k, (p, q) in enumerate(zip(fwd, bwd_rev)):
+        if p[1 - ax] != q[1 - ax]:
+            return "major coordinates differ at point %d" % k
+        if p[ax] != q[ax] and not (abs(p[ax] - q[ax]) == 1 and (2 * d * k) % (2 * D) == D):
+            return "minor coordinates differ at point %d which is not a tie" % k
     return None
+
+
+def _strel_halves(case, out):
+    """split strel_line's pixel set into its two half lines, ordered from the far end to the centre"""
+    yc, xc, yo, xo = _strel_geom(case)
+    S = [tuple(p) for p in out["set"]]
+    ax = 0 if abs(xo) < abs(yo) else 1           # major axis as draw_line chooses it (y-major iff diff_y > diff_x)
+    c = (yc, xc)
+    res = []
+    for sgn in (-1, 1):
+        far = (yc + sgn * yo, xc + sgn * xo)
+        lo, hi = min(far[ax], c[ax]), max(far[ax], c[ax])
+        half = [p for p in S if lo <= p[ax] <= hi and (p == c or p[ax] != c[ax] or far[ax] == c[ax])]
+        half.sort(key=lambda p: p[ax], reverse=far[ax] > c[ax])
+        res.append(([far[0], far[1], c[0], c[1]], [list(p) for p in half]))
+    return res
 
 
 def check(ctx, cases, outs):
     res = [None] * len(cases)
-    di = [k for k, c in enumerate(cases) if c["fn"] == "draw" and not _bad(outs[k])]
-    li = [k for k, c in enumerate(cases) if c["fn"] == "lines" and not _bad(outs[k])]
-    for k, o in enumerate(outs):
+    line_jobs, batch_jobs = [], []          # (case index, label, arg)
+    for k, (c, o) in enumerate(zip(cases, outs)):
         if _bad(o):
             res[k] = "implementation raised/crashed: %s" % (str(o)[:300],)
-    for k, r in zip(di, ctx.run_model("entry_check_line", [[cases[k]["l"], outs[k]["pts"]] for k in di])):
-        if r != 1:
-            res[k] = "draw_line sequence is not the exact Bresenham line (Spec.Lines.line_ok false)"
-        elif sorted(outs[k]["pts"]) != outs[k]["set"]:
-            res[k] = "draw_line pixels on a real array differ from the recorded writes"
-    args = [[cases[k]["ls"], outs[k]["index"], outs[k]["count"], outs[k]["i"], outs[k]["j"]] for k in li]
-    for k, r in zip(li, ctx.run_model("entry_check", args)):
-        o = outs[k]
-        if r != 1:
-            res[k] = "get_line_pts output violates Spec.Lines.batch_ok"
             continue
-        for n, (ix, ct) in enumerate(zip(o["index"], o["count"])):
-            blk = [[a, b] for a, b in zip(o["i"][ix:ix + ct], o["j"][ix:ix + ct])]
-            if blk != o["scalar"][n]:
-                res[k] = "vectorised line %d differs from scalar draw_line: %s vs %s" % (n, blk[:6], o["scalar"][n][:6])
-                break
+        fn = c["fn"]
+        if fn == "draw":
+            line_jobs.append((k, "draw_line sequence", [c["l"], o["pts"]]))
+            if not o["vals_spy_ok"]:
+                res[k] = "draw_line does not store the given value (type and value) at every point"
+            elif not o["args_unchanged"]:
+                res[k] = "draw_line modified its end-point arguments"
+            elif "set" in o:
+                if sorted(o["pts"]) != o["set"]:
+                    res[k] = "pixels changed on a real array (%s, %s) differ from the recorded writes" % (
+                        c.get("arr", {}).get("dtype", "int64"), c.get("arr", {}).get("layout", "C"))
+                elif not (o["vals_ok"] and o["base_ok"] and o["returns_none"]):
+                    res[k] = "draw_line on a real array: wrong value stored, cells outside the view touched, or a return value"
+        elif fn == "lines":
+            batch_jobs.append((k, "get_line_pts output", [c["ls"]] + _four(o)))
+            if o["kinds"] != ["i"] * 4 or o["ndims"] != [1] * 4:
+                res[k] = "get_line_pts must return four 1-d integer arrays, got kinds %s ndims %s" % (o["kinds"], o["ndims"])
+            elif not o["args_unchanged"]:
+                res[k] = "get_line_pts modified its input arrays"
+            elif not o["repeatable"]:
+                res[k] = "a second identical get_line_pts call in the same process gave a different answer"
+            elif "scalar" in o:
+                for n, (ix, ct) in enumerate(zip(o["index"], o["count"])):
+                    blk = [[a, b] for a, b in zip(o["i"][ix:ix + ct], o["j"][ix:ix + ct])]
+                    if blk != o["scalar"][n]:
+                        res[k] = "vectorised line %d differs from scalar draw_line: %s vs %s" % (n, blk[:6], o["scalar"][n][:6])
+                        break
+        elif fn == "rev":
+            line_jobs.append((k, "draw_line forward", [c["l"], o["fwd"]]))
+            y0, x0, y1, x1 = c["l"]
+            line_jobs.append((k, "draw_line from the other end", [[y1, x1, y0, x0], o["bwd"]]))
+            line_jobs.append((k, "reversed line from the other end (C16_draw_line_reverse_spec)", [c["l"], o["bwd"][::-1]]))
+            t = _ties_only(c["l"], o["fwd"], o["bwd"][::-1])
+            if t:
+                res[k] = "the two directions of a line must differ only at exact ties: " + t
+        elif fn == "strel":
+            yc, xc, yo, xo = _strel_geom(c)
+            if o["dtype"] != "bool" or len(o["set"]) != 2 * max(abs(yo), abs(xo)) + 1:
+                res[k] = "strel_line: %d pixels of dtype %s, expected %d bool" % (len(o["set"]), o["dtype"], 2 * max(abs(yo), abs(xo)) + 1)
+            else:
+                for l, half in _strel_halves(c, o):
+                    line_jobs.append((k, "strel_line half line %s" % (l,), [l, half]))
+        elif fn == "hull":
+            if not o["outline_vals_ok"]:
+                res[k] = "convex_hull_image draws its outline with a value other than 1"
+            elif not set(map(tuple, o["outline"])) <= set(map(tuple, o["res"])):
+                res[k] = "convex_hull_image: outline pixels missing from the result"
+            elif not set(map(tuple, np.argwhere(np.array(c["img"]) != 0).tolist())) <= set(map(tuple, o["res"])):
+                res[k] = "convex_hull_image: result does not cover the input object"
+        elif fn == "inner":
+            for n, cl in enumerate(o["calls"]):
+                if not cl["integral"]:
+                    res[k] = "caller handed non-integral end points to get_line_pts"
+                elif cl["ls"]:
+                    batch_jobs.append((k, "inner get_line_pts call %d of %s" % (n, c["which"]), [cl["ls"]] + _four(cl)))
+            if c["which"] == "poly" and res[k] is None:
+                if len(o["calls"]) != 2:
+                    res[k] = "polygon_lines_to_mask made %d get_line_pts calls" % len(o["calls"])
+                else:
+                    on = set(map(tuple, o["res"]))
+                    allp = set((a, b) for cl in o["calls"] for a, b in zip(cl["i"], cl["j"]))
+                    if not allp <= on:
+                        res[k] = "polygon_lines_to_mask: a pixel of a polygon side is not in the mask"
+    # callers: the pixel set must be the union of the (proved-correct) model lines — evaluated here too, so
+    # that a replay / the shrinker sees it without the correspondence stage
+    ck = [k for k, c in enumerate(cases) if c["fn"] in ("strel", "hull") and res[k] is None]
+    if ck:
+        for k, m in zip(ck, model(ctx, [cases[k] for k in ck], [outs[k] for k in ck])):
+            res[k] = compare(cases[k], outs[k], m)
+    for k_lab, r in zip(line_jobs, ctx.run_model("entry_check_line", [a for _, _, a in line_jobs]) if line_jobs else []):
+        k, lab, _ = k_lab
+        if r != 1 and res[k] is None:
+            res[k] = "%s is not the exact Bresenham line (Spec.Lines.line_ok false)" % lab
+    for k_lab, r in zip(batch_jobs, ctx.run_model("entry_check", [a for _, _, a in batch_jobs]) if batch_jobs else []):
+        k, lab, _ = k_lab
+        if r != 1 and res[k] is None:
+            res[k] = "%s violates Spec.Lines.batch_ok" % lab
     return res
 
 
+def _lines_of(case, out):
+    fn = case["fn"]
+    if fn in ("draw", "rev"):
+        return [case["l"]]
+    if fn == "lines":
+        return case["ls"]
+    if fn == "strel":
+        yc, xc, yo, xo = _strel_geom(case)
+        return [[yc - yo, xc - xo, yc, xc]]
+    if _bad(out):
+        return []
+    if fn == "hull":
+        h = out["hull"]
+        return [[h[n][0], h[n][1], h[(n + 1) % len(h)][0], h[(n + 1) % len(h)][1]] for n in range(len(h))]
+    return [l for c in out["calls"] for l in c["ls"]]
+
+
 def nontrivial(case, out):
-    ls = [case["l"]] if case["fn"] == "draw" else case["ls"]
-    for a, b, c, d in ls:
+    for a, b, c, d in _lines_of(case, out):
         D, m = max(abs(c - a), abs(d - b)), min(abs(c - a), abs(d - b))
         if D >= 2 and 0 < m < D:
             return True
@@ -182,14 +659,22 @@ def nontrivial(case, out):
 
 
 def kernel_crosscheck(ctx, cases, outs):
-    idx = [k for k, c in enumerate(cases) if c["fn"] == "lines" and not _bad(outs[k]) and len(c["ls"]) <= 8][:40]
+    """the LINE-LEVEL models (while loop with fuel; lock-step passes with scatter writes), evaluated
+    inside Coq by vm_compute, against the implementation's output on small cases"""
+    idx = [k for k, c in enumerate(cases) if c["fn"] == "lines" and not _bad(outs[k]) and len(c["ls"]) <= 8
+           and sum(outs[k]["count"]) <= 400][:40]
     args = [cases[k]["ls"] for k in idx]
-    exp = [[outs[k]["index"], outs[k]["count"], outs[k]["i"], outs[k]["j"]] for k in idx]
+    exp = [_four(outs[k]) for k in idx]
     r = ctx.coq_eval_eq("Model.Lines", "entry_lines", args, exp, tag="lines")
     bad = [k for k, b in zip(idx, r) if b is not True]
     if bad:
         return "vm_compute evaluation of Model.Lines.entry_lines differs from the implementation on case %d" % bad[0], len(idx)
-    return None, len(idx)
+    idx2 = [k for k, c in enumerate(cases) if c["fn"] == "draw" and not _bad(outs[k]) and len(outs[k]["pts"]) <= 60][-20:]
+    r = ctx.coq_eval_eq("Model.Lines", "entry_draw", [cases[k]["l"] for k in idx2], [[outs[k]["pts"]] for k in idx2], tag="draw")
+    bad = [k for k, b in zip(idx2, r) if b is not True]
+    if bad:
+        return "vm_compute evaluation of Model.Lines.entry_draw differs from the implementation on case %d" % bad[0], len(idx) + len(idx2)
+    return None, len(idx) + len(idx2)
 
 
 def search_cases(ctx, rnd):
@@ -204,27 +689,89 @@ def search_cases(ctx, rnd):
     return cases
 
 
-def shrink_candidates(case):
-    if case["fn"] == "draw":
-        l = case["l"]
-        for k in range(4):
-            if l[k] != 0:
+def _dec(l, lo=None):
+    """smaller variants of a coordinate list: long lines shrink geometrically (every evaluation of a
+    60000-point line costs seconds), short ones by unit steps"""
+    big = max(abs(v) for v in l) > 64
+    if big:
+        yield [v // 2 if v >= 0 else -((-v) // 2) for v in l]
+    for k in range(len(l)):
+        if l[k] != 0 and (lo is None or l[k] > lo):
+            if big and abs(l[k]) > 64:
+                for step in (abs(l[k]), abs(l[k]) // 4, abs(l[k]) // 32):
+                    m = list(l); m[k] -= step if l[k] > 0 else -step
+                    yield m
+            else:
                 m = list(l); m[k] -= 1 if l[k] > 0 else -1
-                yield {"fn": "draw", "l": m}
+                yield m
+
+
+def shrink_candidates(case):
+    fn = case["fn"]
+    if fn == "draw":
+        extra = {k: case[k] for k in ("arr", "spyonly") if k in case}
+        if "arr" in case:
+            for key, dflt in (("layout", "C"), ("pform", "tuple"), ("pad", 0)):
+                if case["arr"].get(key) != dflt:
+                    yield dict(case, arr=dict(case["arr"], **{key: dflt}))
+        l = case["l"]
+        for m in _dec(l, 0 if "arr" in case else None):
+            yield dict({"fn": "draw", "l": m}, **extra)
+        return
+    if fn == "rev":
+        for m in _dec(case["l"]):
+            yield {"fn": "rev", "l": m}
+        return
+    if fn == "strel":
+        if case["length"] >= 1:
+            yield dict(case, length=float(math.floor(case["length"] - 1)))
+        if case["angle"] != round(case["angle"] / 15.0) * 15.0:
+            yield dict(case, angle=float(round(case["angle"] / 15.0) * 15.0))
+        return
+    if fn == "hull":
+        img = case["img"]
+        if len(img) > 3:
+            yield {"fn": "hull", "img": img[1:]}
+            yield {"fn": "hull", "img": img[:-1]}
+        if len(img[0]) > 3:
+            yield {"fn": "hull", "img": [r[1:] for r in img]}
+            yield {"fn": "hull", "img": [r[:-1] for r in img]}
+        return
+    if fn == "inner":
         return
     ls = case["ls"]
-    extra = {"dtype": case["dtype"]} if "dtype" in case else {}
+    extra = {k: case[k] for k in ("dtype", "layout", "noscalar") if k in case}
+    if sum(max(abs(l[2] - l[0]), abs(l[3] - l[1])) + 1 for l in ls) > 20000 and len(ls) <= 8:
+        # every evaluation of such a case costs seconds: only a handful of candidates
+        for k in range(len(ls)):
+            if len(ls) > 1:
+                yield dict({"fn": "lines", "ls": ls[:k] + ls[k + 1:]}, **extra)
+        n = max(range(len(ls)), key=lambda k: max(abs(ls[k][2] - ls[k][0]), abs(ls[k][3] - ls[k][1])))
+        l = ls[n]
+        cands = []
+        if extra.get("dtype", "int") in ("int", "int64", "intp", "list") and (l[0] or l[1]):
+            cands.append([0, 0, l[2] - l[0], l[3] - l[1]])
+        cands += list(_dec(l))[:9]
+        for mm in cands:
+            m = [list(x) for x in ls]; m[n] = mm
+            yield dict({"fn": "lines", "ls": m}, **extra)
+        return
+    if extra.get("layout", "C") != "C":
+        yield dict({"fn": "lines", "ls": ls}, **dict(extra, layout="C"))
     if len(ls) > 3:
         h = len(ls) // 2
         yield dict({"fn": "lines", "ls": ls[:h]}, **extra)
         yield dict({"fn": "lines", "ls": ls[h:]}, **extra)
-    if len(ls) > 1:
+        q = max(1, len(ls) // 8)
+        for s in range(0, len(ls), q):
+            yield dict({"fn": "lines", "ls": ls[:s] + ls[s + q:]}, **extra)
+    if 1 < len(ls) <= 40:
         for k in range(len(ls)):
             yield dict({"fn": "lines", "ls": ls[:k] + ls[k + 1:]}, **extra)
-    for n, l in enumerate(ls[:3]):
-        for k in range(4):
-            if l[k] != 0:
-                m = [list(x) for x in ls]; m[n][k] -= 1 if l[k] > 0 else -1
+    if len(ls) <= 40:
+        for n, l in enumerate(ls[:3]):
+            for mm in _dec(l):
+                m = [list(x) for x in ls]; m[n] = mm
                 yield dict({"fn": "lines", "ls": m}, **extra)
 
 
@@ -240,10 +787,18 @@ MANIFEST = {
         "are the lengths and their exclusive cumulative sums and the block of every line of the lock-step vectorised "
         "output equals the scalar sequence of that line alone (compaction invariant, last-write-wins scatter over "
         "disjoint positions; independence of the other lines, of batch order and of the pass that handles the line); "
-        "(4) C16_batch_checker. The model is tied to the code by exact comparison of complete outputs (write order of "
-        "draw_line, all four arrays of get_line_pts) on every end-point pair of a grid plus random batches, with the "
-        "extracted model cross-checked against vm_compute; the verified checkers are evaluated on the "
-        "implementation's own output."),
+        "(4) C16_batch_checker; (5) C16_draw_line_fast_eq / C16_get_line_pts_fast_eq - the linear executable forms "
+        "that are extracted equal the line-level models for all inputs; (6) C16_draw_line_pixels - on any image the "
+        "pixels carrying the value afterwards are exactly the points of the sequence, each written once, everything "
+        "else unchanged; (7) C16_8_connected; (8) C16_LineSpec_reverse, C16_draw_line_reverse_spec, "
+        "C16_unique_up_to_ties and the refutation C16_draw_line_reverse_refuted - the line drawn from the other end "
+        "is NOT the reversed line in general, but it is a correct line and differs only at exact ties, by one pixel. "
+        "The model is tied to the code by exact comparison of complete outputs (write order of "
+        "draw_line, changed pixels of real arrays of every dtype/layout, all four arrays of get_line_pts for every "
+        "input dtype/container/layout, the library callers strel_line, convex_hull_image, polygon_lines_to_mask, "
+        "convex_hull_transform) on every end-point pair of a grid plus random batches, with the "
+        "line-level model cross-checked against the implementation inside the kernel (vm_compute); the verified "
+        "checkers are evaluated on the implementation's own output."),
     "level_note": (
         "Trusted: Coq kernel + vm_compute; extraction (ExtrOcamlBasic only) and the S-expression driver; the Python "
         "harness; NumPy scatter/compaction semantics as modelled (last write wins). The tie between model and code "
